@@ -105,4 +105,85 @@ theorem charge_step (env : Env) (a : Annotation) (t : Key) (mono : Bool) (hl : a
   have hp : lib.proton = Gen.protonMass := rfl
   split_ifs <;> push_cast <;> rw [hp] <;> ring
 
+
+/-- the N-terminal piece, the C-terminal piece and the whole peptide of one cleavage: residues `s₁ ++ s₂`, N-terminal
+mods `nt`, C-terminal mods `ct`, residue mods `I₁` (keys into `s₁`) and `I₂` (keys into `s₂`, shifted in the whole) -/
+def prefixAnn (s₁ : List Char) (nt : Option (List Mod)) (I₁ : List (Int × List Mod)) : Annotation :=
+  { seq := s₁, nterm := nt, internal := some I₁ }
+def suffixAnn (s₂ : List Char) (ct : Option (List Mod)) (I₂ : List (Int × List Mod)) : Annotation :=
+  { seq := s₂, cterm := ct, internal := some I₂ }
+def wholeAnn (s₁ s₂ : List Char) (nt ct : Option (List Mod)) (I₁ I₂ : List (Int × List Mod)) : Annotation :=
+  { seq := s₁ ++ s₂, nterm := nt, cterm := ct, internal := some (I₁ ++ I₂.map (fun p => (p.1 + (s₁.length : Int), p.2))) }
+
+/-- **b_i + y_(n−i) = M + 2·h⁺** (singly charged ions, neutral peptide mass `M`), for every cleavage position of
+every peptide with numeric / formula / named modifications on residues and termini, both modes -/
+theorem b_plus_y (env : Env) (mono : Bool) (s₁ s₂ : List Char) (nt ct : Option (List Mod)) (I₁ I₂ : List (Int × List Mod))
+    (hb : fragDomain env (prefixAnn s₁ nt I₁) mono) (hy : fragDomain env (suffixAnn s₂ ct I₂) mono)
+    (hM : inDomain env (wholeAnn s₁ s₂ nt ct I₁ I₂) ionP mono none = true) :
+    ∃ b y M, mass env (prefixAnn s₁ nt I₁) (ionQuery (k "b") 1 mono 0 0) = .ok b ∧
+      mass env (suffixAnn s₂ ct I₂) (ionQuery (k "y") 1 mono 0 0) = .ok y ∧
+      mass env (wholeAnn s₁ s₂ nt ct I₁ I₂) (ionQuery ionP 0 mono 0 0) = .ok M ∧
+      b + y = M + 2 * lib.hplus mono := by
+  obtain ⟨_, ob, _, _, oy, _, _⟩ := offsets mono
+  refine ⟨_, _, _, fragMass tR tA env _ mono hb (k "b") (by decide) (by decide) _ ob 1 0 0,
+    fragMass tR tA env _ mono hy (k "y") (by decide) (by decide) _ oy 1 0 0,
+    precursorMass tR tA env _ mono rfl rfl hM 0 0 0, ?_⟩
+  have hfm : (I₂.map (fun p => (p.1 + (s₁.length : Int), p.2))).flatMap (·.2) = I₂.flatMap (·.2) := by
+    rw [List.flatMap_map]
+  unfold ionBase residueSum staticValue placedMods prefixAnn suffixAnn wholeAnn
+  simp only [Option.getD_none, Option.getD_some, List.flatMap_nil, List.append_nil, List.nil_append,
+    List.map_append, sumR_append, modsValue_append, List.flatMap_append, hfm, if_true]
+  have h98 : (98 : Key) = ionP ↔ False := by decide
+  simp only [h98, if_false, modsValue, List.map_nil, sumR_nil]
+  push_cast
+  ring
+
+
+/-- **a modification shifts exactly the ions that contain it**: if two annotations of the same residues and global
+rules differ by one written modification `m` (on a residue, a terminus, an interval, of unknown position, or labile for
+the precursor), every ion type / charge / isotope / loss computed from the one containing `m` is heavier by exactly
+`mult·μ(m)`; an ion whose annotation does not contain `m` is computed from the same data and is not shifted at all.
+(Which fragment annotations contain the residue is slicing, C07/C11; checked on `fragment()` by the oracle.) -/
+theorem mod_locality (env : Env) (a₀ a₁ : Annotation) (t : Key) (mono : Bool) (m : Mod) (pre post : List Mod)
+    (hseq : a₁.seq = a₀.seq) (hstat : a₁.static = a₀.static)
+    (h₁ : placedMods a₁ t = pre ++ m :: post) (h₀ : placedMods a₀ t = pre ++ post)
+    (hl₀ : a₀.isotope = none) (had₀ : a₀.adducts = none) (hl₁ : a₁.isotope = none) (had₁ : a₁.adducts = none)
+    (hd₀ : inDomain env a₀ t mono none = true) (hd₁ : inDomain env a₁ t mono none = true) (z iso : Int) (loss : Rat) :
+    ∃ m₀, mass env a₀ (ionQuery t z mono iso loss) = .ok m₀ ∧
+      mass env a₁ (ionQuery t z mono iso loss) = .ok (m₀ + modValue env mono m) := by
+  refine ⟨_, mass_eq_spec_of_tables tR tA env a₀ (ionQuery t z mono iso loss) rfl hl₀ rfl had₀ hd₀, ?_⟩
+  rw [mass_eq_spec_of_tables tR tA env a₁ (ionQuery t z mono iso loss) rfl hl₁ rfl had₁ hd₁]
+  apply congrArg Except.ok
+  show specMassT lib env a₁ t _ mono iso loss none = specMassT lib env a₀ t _ mono iso loss none + modValue env mono m
+  have hs : staticValue env mono a₁ = staticValue env mono a₀ := by unfold staticValue; rw [hstat, hseq]
+  have hc : effCharge a₁ (ionQuery t z mono iso loss) = effCharge a₀ (ionQuery t z mono iso loss) := rfl
+  unfold specMassT
+  rw [hseq, hs, h₁, h₀, hc]
+  simp only [modsValue, List.map_append, List.map_cons, sumR_append, sumR_cons]
+  ring
+
+
+/-! ### non-vacuity: concrete inputs satisfying the hypotheses above -/
+
+def exEnv : Env := ⟨fun _ => ⟨.ok 15, .ok 16, .ok none, .ok [(kO, 1)]⟩, fun _ => .ok []⟩
+def exAnn : Annotation :=
+  { seq := "PEPTIDE".toList, nterm := some [⟨.str "Acetyl".toList, 1⟩], internal := some [(2, [⟨.int 7, 2⟩])] }
+
+-- series / internal / charge-step hypotheses (both modes)
+example : fragDomain exEnv exAnn true := ⟨rfl, rfl, by decide +kernel⟩
+example : fragDomain exEnv exAnn false := ⟨rfl, rfl, by decide +kernel⟩
+example : inDomain exEnv exAnn (k "cz") false none = true := by decide +kernel
+-- b_plus_y: PEP | TIDE with an N-terminal mod, a residue mod in each piece and a C-terminal mod
+example : fragDomain exEnv (prefixAnn "PEP".toList (some [⟨.int 42, 1⟩]) [(1, [⟨.int 7, 2⟩])]) true ∧
+    fragDomain exEnv (suffixAnn "TIDE".toList (some [⟨.int 1, 1⟩]) [(0, [⟨.int 80, 1⟩])]) true ∧
+    inDomain exEnv (wholeAnn "PEP".toList "TIDE".toList (some [⟨.int 42, 1⟩]) (some [⟨.int 1, 1⟩])
+      [(1, [⟨.int 7, 2⟩])] [(0, [⟨.int 80, 1⟩])]) ionP true none = true :=
+  ⟨⟨rfl, rfl, by decide +kernel⟩, ⟨rfl, rfl, by decide +kernel⟩, by decide +kernel⟩
+-- mod_locality: the residue mod of exAnn against the same peptide without it, y-type ions
+example : placedMods exAnn (k "y") = [⟨.str "Acetyl".toList, 1⟩] ++ ⟨.int 7, 2⟩ :: [] ∧
+    placedMods { exAnn with internal := some [(2, [])] } (k "y") = [⟨.str "Acetyl".toList, 1⟩] ++ [] := by
+  constructor <;> decide +kernel
+-- immonium: tryptophan
+example : lookup 'W'.toNat residueFormula = some [(kC, 11), (kH, 10), (kN, 2), (kO, 1)] := by decide +kernel
+
 end Pept.C05
